@@ -76,10 +76,11 @@ def configs(tier):
                  ops=["clone", "poke", "copy", "format", "layout", "tinplace", "transpinto"], depth=3, ns=3, types=[]),
             cfgd("alias chains of 4 calls on 2 slots", ["mini"], ops=["clone", "poke", "copy"], depth=4, ns=2, types=[]),
             cfgd("permute twice, all csr shapes <= 3x2/2x3", ["csr_small"], ops=["permute"], depth=2, ns=1, types=[], perm="all"),
-            cfgd("chains of 3 calls, 2 slots, all calls", ["mini"], depth=3, ns=2, types=[]),
+            cfgd("chains of 3 calls, 2 slots, all conversion / clone / transpose / permute / layout / graph / copy / format / poke calls", ["mini"], depth=3, ns=2, types=[],
+                 ops=OLDOPS),
             cfgd("chains of 4 calls, 2 slots: convert, transpose, permute, poke", ["mini"], depth=4, ns=2, types=[], ops=["conv", "transp", "permute", "poke"]),
-            cfgd("rebuild chains of 3 calls, 2 slots: mirror, allocate, full copy, layout, convert_reverse, factory, convert", ["csr_pal", "cscr_pal", "bcsr_pal"], depth=3, ns=2, types=[],
-                 ops=["mirror", "alloc", "copy", "layout", "convrev", "factory", "conv", "convctor", "poke"]),
+            cfgd("rebuild chains of 3 calls, 2 slots: mirror, allocate, full copy, layout, convert_reverse, factory, poke", ["csr_pal"], depth=3, ns=2, types=[],
+                 ops=["mirror", "alloc", "copy", "layout", "convrev", "factory", "poke"]),
             cfgd("random chains of 10 calls on 3 slots (simulate)", PAL, depth=10, ns=3, simulate=600, workers=4, types=["f32u32"]),
             cfgd("random chains of 16 calls on 3 slots, stored zeros (simulate)", PAL, depth=16, ns=3, simulate=200, pal=2, workers=4, types=["f32u32"]),
         ]
